@@ -62,6 +62,9 @@ def verify(name):
     res = {}
     try:
         cxx = "-DREPROC++=ON" if "reproc++" in open(patch).read() else ""
+        # the demos locate the sources relative to themselves: <tree>/mutant/demo/run.sh
+        shutil.copytree(os.path.join(SEEDED, name), os.path.join(wt, "mutant"))
+        demo = os.path.join(wt, "mutant", "demo", "run.sh")
         rc, out = sh(BUILD % cxx, cwd=wt)
         res["orig_builds"] = rc == 0
         rc, out = sh("sh %s %s/_build" % (demo, wt), cwd=os.path.dirname(demo))
@@ -84,8 +87,6 @@ def verify(name):
     finally:
         sh("git -C %s worktree remove --force %s" % (REPO, wt))
         shutil.rmtree(wt, ignore_errors=True)
-        # demos may leave binaries next to their sources
-        sh("git -C %s clean -fdxq seeded/%s" % (VERIF, name))
     m["verified_by_me"] = res
     m["verified_ok"] = all(res.get(k) for k in ("patch_applies", "mutant_builds", "tests_pass_with_change", "demo_passes_without_change", "demo_fails_with_change"))
     save_meta(name, m)
